@@ -5,7 +5,7 @@ from props import common
 ID = "C13"
 LEVEL = "proof"
 SIDECARS = ["contracts.hardware", "contracts.fusion", "contracts.rollup"]
-TARGETS = ["Collector.__build_time", "Hardware.get_components", "Fusion.__init__", "Fusion.add_einsum", "Fusion.add_component", "Fusion.get_blocks", "Fusion.get_components"]
+TARGETS = ["Collector.__build_time", "Hardware.get_components", "Fusion.__init__", "Fusion.add_einsum", "Fusion.add_component", "Fusion.get_blocks", "Fusion.get_components", "SBlock.__init__", "SBlock.add"]
 EXPLANATION = (
     "Representation invariant + per-call postcondition of the real Fusion.add_einsum, proved for every history: the "
     "new Einsum is appended to the open block or opens a new last block (all earlier blocks untouched), and it joins "
